@@ -82,6 +82,9 @@ def run(ck):
     for v in range(2):
       t = pr.text(G.Printer(paren_rng=rng, paren_prob=rng.choice([0.1, 0.3])))
       texts.append((kind, base, t, 'parens'))
+      # layout noise on top of the redundant parentheses (blanks and newlines between nested parentheses)
+      t2, used = PC.add_noise(t, rng, rng.randint(2, 10))
+      texts.append((kind, base, t2, 'parens+noise'))
     texts.append((kind, base, base.rstrip('\n') + ';\n', 'trailing-semicolon'))
     texts.append((kind, base, base.replace(';\n', ';;\n', 1), 'empty-statement'))
   sv = string_statements(rng, ck.budget(80, 1000), with_values=True)
